@@ -41,6 +41,8 @@ def twin_pool():
         P.Implies(P.neg(a), P.Implies(a, P.bot())),
         # a metavariable whose only constraint is a list of application-context holes
         P.Implies(P.MetaVar(3, app_ctx_holes=(P.EVar(1),)), P.App(a, P.MetaVar(3, app_ctx_holes=(P.EVar(1),)))),
+        # pending set-variable substitution as a whole axiom / claim
+        P.SSubst(P.MetaVar(0), P.SVar(1), a),
         # an application of a (notation-like) definition whose argument map is not in ascending key order
         P.Instantiate(P.Implies(P.MetaVar(0), P.Implies(P.MetaVar(1), P.MetaVar(2))), frozendict({2: P.Symbol('c'), 0: a, 1: P.Symbol('b')})),
     ]
